@@ -20,3 +20,316 @@ impl Statement {
 //@   props C07
 //@ end
 }
+
+// ---- phase contracts between the resolver and the type checker (shared by U-RESOLVE and U-TC) ----
+/// no declaration statement (blob / enum / external) anywhere in a resolved tree: the type
+/// checker's `statement` treats those as unreachable!("Illegal inner statement")
+pub open spec fn e_nodecl(e: Expression) -> bool decreases e {
+    match e {
+        Expression::Read { .. } => true,
+        Expression::Variant { value, .. } => e_nodecl(*value),
+        Expression::Call { function, args, .. } => e_nodecl(*function) && forall|i: int| 0 <= i < args.len() ==> e_nodecl(#[trigger] args[i]),
+        Expression::BlobAccess { value, .. } => e_nodecl(*value),
+        Expression::Index { value, index, .. } => e_nodecl(*value) && e_nodecl(*index),
+        Expression::BinOp { a, b, .. } => e_nodecl(*a) && e_nodecl(*b),
+        Expression::UniOp { a, .. } => e_nodecl(*a),
+        Expression::If { branches, .. } => forall|i: int| 0 <= i < branches.len() ==> ib_nodecl(#[trigger] branches[i]),
+        Expression::Case { to_match, branches, fall_through, .. } => e_nodecl(*to_match)
+            && (forall|i: int| 0 <= i < branches.len() ==> cb_nodecl(#[trigger] branches[i]))
+            && (match fall_through { Some(b) => forall|i: int| 0 <= i < b.len() ==> s_nodecl(#[trigger] b[i]), None => true }),
+        Expression::Function { body, .. } => forall|i: int| 0 <= i < body.len() ==> s_nodecl(#[trigger] body[i]),
+        Expression::Blob { fields, .. } => forall|i: int| 0 <= i < fields.len() ==> e_nodecl((#[trigger] fields[i]).1),
+        Expression::Collection { values, .. } => forall|i: int| 0 <= i < values.len() ==> e_nodecl(#[trigger] values[i]),
+        Expression::Float(..) | Expression::Int(..) | Expression::Str(..) | Expression::Bool(..) | Expression::Nil(..) => true,
+    }
+}
+pub open spec fn ib_nodecl(b: IfBranch) -> bool decreases b {
+    (match b.condition { Some(c) => e_nodecl(c), None => true })
+    && forall|i: int| 0 <= i < b.body.len() ==> s_nodecl(#[trigger] b.body[i])
+}
+pub open spec fn cb_nodecl(b: CaseBranch) -> bool decreases b {
+    forall|i: int| 0 <= i < b.body.len() ==> s_nodecl(#[trigger] b.body[i])
+}
+pub open spec fn s_nodecl(s: Statement) -> bool decreases s {
+    match s {
+        Statement::Assignment { target, value, .. } => e_nodecl(target) && e_nodecl(value),
+        Statement::Blob { .. } | Statement::Enum { .. } | Statement::ExternalDefinition { .. } => false,
+        Statement::Definition { value, .. } => e_nodecl(value),
+        Statement::Loop { condition, body, .. } => e_nodecl(condition) && forall|i: int| 0 <= i < body.len() ==> s_nodecl(#[trigger] body[i]),
+        Statement::Break(_) | Statement::Continue(_) | Statement::Unreachable(_) => true,
+        Statement::Ret { value, .. } => match value { Some(v) => e_nodecl(v), None => true },
+        Statement::Block { statements, .. } => forall|i: int| 0 <= i < statements.len() ==> s_nodecl(#[trigger] statements[i]),
+        Statement::StatementExpression { value, .. } => e_nodecl(value),
+    }
+}
+
+/// every variable id mentioned anywhere in a resolved tree is below n (i.e. an index of the
+/// variable table) - the phase contract between the resolver and the type checker
+pub open spec fn e_below(e: Expression, n: int) -> bool decreases e {
+    match e {
+        Expression::Read { var, .. } => var < n,
+        Expression::Variant { ty, value, .. } => ty < n && e_below(*value, n),
+        Expression::Call { function, args, .. } => e_below(*function, n) && forall|i: int| 0 <= i < args.len() ==> e_below(#[trigger] args[i], n),
+        Expression::BlobAccess { value, .. } => e_below(*value, n),
+        Expression::Index { value, index, .. } => e_below(*value, n) && e_below(*index, n),
+        Expression::BinOp { a, b, .. } => e_below(*a, n) && e_below(*b, n),
+        Expression::UniOp { a, .. } => e_below(*a, n),
+        Expression::If { branches, .. } => forall|i: int| 0 <= i < branches.len() ==> ib_below(#[trigger] branches[i], n),
+        Expression::Case { to_match, branches, fall_through, .. } => e_below(*to_match, n)
+            && (forall|i: int| 0 <= i < branches.len() ==> cb_below(#[trigger] branches[i], n))
+            && (match fall_through { Some(b) => forall|i: int| 0 <= i < b.len() ==> s_below(#[trigger] b[i], n), None => true }),
+        Expression::Function { params, body, .. } => (forall|k: int| 0 <= k < params.len() ==> (#[trigger] params[k]).1 < n)
+            && forall|i: int| 0 <= i < body.len() ==> s_below(#[trigger] body[i], n),
+        Expression::Blob { blob, fields, self_var, .. } => blob < n && self_var < n
+            && forall|i: int| 0 <= i < fields.len() ==> e_below((#[trigger] fields[i]).1, n),
+        Expression::Collection { values, .. } => forall|i: int| 0 <= i < values.len() ==> e_below(#[trigger] values[i], n),
+        Expression::Float(..) | Expression::Int(..) | Expression::Str(..) | Expression::Bool(..) | Expression::Nil(..) => true,
+    }
+}
+pub open spec fn ib_below(b: IfBranch, n: int) -> bool decreases b {
+    (match b.condition { Some(c) => e_below(c, n), None => true })
+    && forall|i: int| 0 <= i < b.body.len() ==> s_below(#[trigger] b.body[i], n)
+}
+pub open spec fn cb_below(b: CaseBranch, n: int) -> bool decreases b {
+    (match b.variable { Some(v) => v < n, None => true })
+    && forall|i: int| 0 <= i < b.body.len() ==> s_below(#[trigger] b.body[i], n)
+}
+pub open spec fn s_below(s: Statement, n: int) -> bool decreases s {
+    match s {
+        Statement::Assignment { target, value, .. } => e_below(target, n) && e_below(value, n),
+        Statement::Blob { var, .. } | Statement::Enum { var, .. } | Statement::ExternalDefinition { var, .. } => var < n,
+        Statement::Definition { var, value, .. } => var < n && e_below(value, n),
+        Statement::Loop { condition, body, .. } => e_below(condition, n) && forall|i: int| 0 <= i < body.len() ==> s_below(#[trigger] body[i], n),
+        Statement::Break(_) | Statement::Continue(_) | Statement::Unreachable(_) => true,
+        Statement::Ret { value, .. } => match value { Some(v) => e_below(v, n), None => true },
+        Statement::Block { statements, .. } => forall|i: int| 0 <= i < statements.len() ==> s_below(#[trigger] statements[i], n),
+        Statement::StatementExpression { value, .. } => e_below(value, n),
+    }
+}
+pub open spec fn all_below(ss: Seq<Statement>, n: int) -> bool { forall|i: int| 0 <= i < ss.len() ==> s_below(#[trigger] ss[i], n) }
+
+/// monotonicity: ids below n are below every m >= n (structural induction over the four AST types)
+pub proof fn lemma_e_below_mono(e: Expression, n: int, m: int)
+    requires e_below(e, n), n <= m,
+    ensures e_below(e, m),
+    decreases e
+{
+    match e {
+        Expression::Variant { value, .. } => { lemma_e_below_mono(*value, n, m); }
+        Expression::Call { function, args, .. } => {
+            lemma_e_below_mono(*function, n, m);
+            assert forall|i: int| 0 <= i < args.len() implies e_below(#[trigger] args[i], m) by { lemma_e_below_mono(args[i], n, m); }
+        }
+        Expression::BlobAccess { value, .. } => { lemma_e_below_mono(*value, n, m); }
+        Expression::Index { value, index, .. } => { lemma_e_below_mono(*value, n, m); lemma_e_below_mono(*index, n, m); }
+        Expression::BinOp { a, b, .. } => { lemma_e_below_mono(*a, n, m); lemma_e_below_mono(*b, n, m); }
+        Expression::UniOp { a, .. } => { lemma_e_below_mono(*a, n, m); }
+        Expression::If { branches, .. } => {
+            assert forall|i: int| 0 <= i < branches.len() implies ib_below(#[trigger] branches[i], m) by { lemma_ib_below_mono(branches[i], n, m); }
+        }
+        Expression::Case { to_match, branches, fall_through, .. } => {
+            lemma_e_below_mono(*to_match, n, m);
+            assert forall|i: int| 0 <= i < branches.len() implies cb_below(#[trigger] branches[i], m) by { lemma_cb_below_mono(branches[i], n, m); }
+            match fall_through {
+                Some(b) => { assert forall|i: int| 0 <= i < b.len() implies s_below(#[trigger] b[i], m) by { lemma_s_below_mono(b[i], n, m); } }
+                None => {}
+            }
+        }
+        Expression::Function { params, body, .. } => {
+            assert forall|i: int| 0 <= i < body.len() implies s_below(#[trigger] body[i], m) by { lemma_s_below_mono(body[i], n, m); }
+        }
+        Expression::Blob { fields, .. } => {
+            assert forall|i: int| 0 <= i < fields.len() implies e_below((#[trigger] fields[i]).1, m) by { lemma_e_below_mono(fields[i].1, n, m); }
+        }
+        Expression::Collection { values, .. } => {
+            assert forall|i: int| 0 <= i < values.len() implies e_below(#[trigger] values[i], m) by { lemma_e_below_mono(values[i], n, m); }
+        }
+        _ => {}
+    }
+}
+pub proof fn lemma_ib_below_mono(b: IfBranch, n: int, m: int)
+    requires ib_below(b, n), n <= m,
+    ensures ib_below(b, m),
+    decreases b
+{
+    match b.condition { Some(c) => { lemma_e_below_mono(c, n, m); } None => {} }
+    assert forall|i: int| 0 <= i < b.body.len() implies s_below(#[trigger] b.body[i], m) by { lemma_s_below_mono(b.body[i], n, m); }
+}
+pub proof fn lemma_cb_below_mono(b: CaseBranch, n: int, m: int)
+    requires cb_below(b, n), n <= m,
+    ensures cb_below(b, m),
+    decreases b
+{
+    assert forall|i: int| 0 <= i < b.body.len() implies s_below(#[trigger] b.body[i], m) by { lemma_s_below_mono(b.body[i], n, m); }
+}
+pub proof fn lemma_s_below_mono(s: Statement, n: int, m: int)
+    requires s_below(s, n), n <= m,
+    ensures s_below(s, m),
+    decreases s
+{
+    match s {
+        Statement::Assignment { target, value, .. } => { lemma_e_below_mono(target, n, m); lemma_e_below_mono(value, n, m); }
+        Statement::Definition { value, .. } => { lemma_e_below_mono(value, n, m); }
+        Statement::Loop { condition, body, .. } => {
+            lemma_e_below_mono(condition, n, m);
+            assert forall|i: int| 0 <= i < body.len() implies s_below(#[trigger] body[i], m) by { lemma_s_below_mono(body[i], n, m); }
+        }
+        Statement::Ret { value, .. } => { match value { Some(v) => { lemma_e_below_mono(v, n, m); } None => {} } }
+        Statement::Block { statements, .. } => {
+            assert forall|i: int| 0 <= i < statements.len() implies s_below(#[trigger] statements[i], m) by { lemma_s_below_mono(statements[i], n, m); }
+        }
+        Statement::StatementExpression { value, .. } => { lemma_e_below_mono(value, n, m); }
+        _ => {}
+    }
+}
+
+/// upward-closed forms ("below every m >= n"): monotone in n by construction, which is what the
+/// resolver needs while its variable table grows during a traversal
+pub open spec fn e_up(e: Expression, n: int) -> bool { forall|m: int| m >= n ==> #[trigger] e_below(e, m) }
+pub open spec fn ib_up(b: IfBranch, n: int) -> bool { forall|m: int| m >= n ==> #[trigger] ib_below(b, m) }
+pub open spec fn cb_up(b: CaseBranch, n: int) -> bool { forall|m: int| m >= n ==> #[trigger] cb_below(b, m) }
+pub open spec fn s_up(s: Statement, n: int) -> bool { forall|m: int| m >= n ==> #[trigger] s_below(s, m) }
+pub open spec fn all_up(ss: Seq<Statement>, n: int) -> bool { forall|i: int| 0 <= i < ss.len() ==> s_up(#[trigger] ss[i], n) }
+
+// ---- constructor lemmas for the upward-closed predicates (broadcast: they fire on the constructed
+// value; needed because the verifier does not unfold a recursive spec function under the `forall m`)
+pub broadcast proof fn lemma_up_read(var: Ref, span: Span, n: int)
+    requires var < n,
+    ensures #[trigger] e_up(Expression::Read { var, span }, n),
+{ assert forall|m: int| m >= n implies #[trigger] e_below(Expression::Read { var, span }, m) by {} }
+pub broadcast proof fn lemma_up_variant(ty: Ref, variant: String, value: Box<Expression>, span: Span, n: int)
+    requires ty < n, e_up(*value, n),
+    ensures #[trigger] e_up(Expression::Variant { ty, variant, value, span }, n),
+{ assert forall|m: int| m >= n implies #[trigger] e_below(Expression::Variant { ty, variant, value, span }, m) by { assert(e_below(*value, m)); } }
+pub broadcast proof fn lemma_up_call(function: Box<Expression>, args: Vec<Expression>, span: Span, n: int)
+    requires e_up(*function, n), forall|i: int| 0 <= i < args@.len() ==> e_up(#[trigger] args@[i], n),
+    ensures #[trigger] e_up(Expression::Call { function, args, span }, n),
+{
+    assert forall|m: int| m >= n implies #[trigger] e_below(Expression::Call { function, args, span }, m) by {
+        assert(e_below(*function, m));
+        assert forall|i: int| 0 <= i < args.len() implies e_below(#[trigger] args[i], m) by { assert(e_up(args@[i], n)); }
+    }
+}
+pub broadcast proof fn lemma_up_blobaccess(value: Box<Expression>, field: String, span: Span, n: int)
+    requires e_up(*value, n),
+    ensures #[trigger] e_up(Expression::BlobAccess { value, field, span }, n),
+{ assert forall|m: int| m >= n implies #[trigger] e_below(Expression::BlobAccess { value, field, span }, m) by { assert(e_below(*value, m)); } }
+pub broadcast proof fn lemma_up_index(value: Box<Expression>, index: Box<Expression>, span: Span, n: int)
+    requires e_up(*value, n), e_up(*index, n),
+    ensures #[trigger] e_up(Expression::Index { value, index, span }, n),
+{ assert forall|m: int| m >= n implies #[trigger] e_below(Expression::Index { value, index, span }, m) by { assert(e_below(*value, m)); assert(e_below(*index, m)); } }
+pub broadcast proof fn lemma_up_binop(a: Box<Expression>, b: Box<Expression>, op: BinOp, span: Span, n: int)
+    requires e_up(*a, n), e_up(*b, n),
+    ensures #[trigger] e_up(Expression::BinOp { a, b, op, span }, n),
+{ assert forall|m: int| m >= n implies #[trigger] e_below(Expression::BinOp { a, b, op, span }, m) by { assert(e_below(*a, m)); assert(e_below(*b, m)); } }
+pub broadcast proof fn lemma_up_uniop(a: Box<Expression>, op: UniOp, span: Span, n: int)
+    requires e_up(*a, n),
+    ensures #[trigger] e_up(Expression::UniOp { a, op, span }, n),
+{ assert forall|m: int| m >= n implies #[trigger] e_below(Expression::UniOp { a, op, span }, m) by { assert(e_below(*a, m)); } }
+pub broadcast proof fn lemma_up_if(branches: Vec<IfBranch>, span: Span, n: int)
+    requires forall|i: int| 0 <= i < branches@.len() ==> ib_up(#[trigger] branches@[i], n),
+    ensures #[trigger] e_up(Expression::If { branches, span }, n),
+{
+    assert forall|m: int| m >= n implies #[trigger] e_below(Expression::If { branches, span }, m) by {
+        assert forall|i: int| 0 <= i < branches.len() implies ib_below(#[trigger] branches[i], m) by { assert(ib_up(branches@[i], n)); }
+    }
+}
+pub broadcast proof fn lemma_up_case(to_match: Box<Expression>, branches: Vec<CaseBranch>, fall_through: Option<Vec<Statement>>, span: Span, n: int)
+    requires e_up(*to_match, n), forall|i: int| 0 <= i < branches@.len() ==> cb_up(#[trigger] branches@[i], n),
+        fall_through is Some ==> all_up(fall_through->Some_0@, n),
+    ensures #[trigger] e_up(Expression::Case { to_match, branches, fall_through, span }, n),
+{
+    assert forall|m: int| m >= n implies #[trigger] e_below(Expression::Case { to_match, branches, fall_through, span }, m) by {
+        assert(e_below(*to_match, m));
+        assert forall|i: int| 0 <= i < branches.len() implies cb_below(#[trigger] branches[i], m) by { assert(cb_up(branches@[i], n)); }
+        match fall_through {
+            Some(b) => { assert forall|i: int| 0 <= i < b.len() implies s_below(#[trigger] b[i], m) by { assert(s_up(b@[i], n)); } }
+            None => {}
+        }
+    }
+}
+pub broadcast proof fn lemma_up_function(name: String, params: Vec<(String, Ref, Span, Type)>, ret: Type, body: Vec<Statement>, pure: bool, span: Span, n: int)
+    requires forall|k: int| 0 <= k < params@.len() ==> (#[trigger] params@[k]).1 < n, all_up(body@, n),
+    ensures #[trigger] e_up(Expression::Function { name, params, ret, body, pure, span }, n),
+{
+    assert forall|m: int| m >= n implies #[trigger] e_below(Expression::Function { name, params, ret, body, pure, span }, m) by {
+        assert forall|i: int| 0 <= i < body.len() implies s_below(#[trigger] body[i], m) by { assert(s_up(body@[i], n)); }
+    }
+}
+pub broadcast proof fn lemma_up_blob(blob: Ref, fields: Vec<(String, Expression)>, self_var: Ref, span: Span, n: int)
+    requires blob < n, self_var < n, forall|i: int| 0 <= i < fields@.len() ==> e_up((#[trigger] fields@[i]).1, n),
+    ensures #[trigger] e_up(Expression::Blob { blob, fields, self_var, span }, n),
+{
+    assert forall|m: int| m >= n implies #[trigger] e_below(Expression::Blob { blob, fields, self_var, span }, m) by {
+        assert forall|i: int| 0 <= i < fields.len() implies e_below((#[trigger] fields[i]).1, m) by { assert(e_up(fields@[i].1, n)); }
+    }
+}
+pub broadcast proof fn lemma_up_collection(collection: Collection, values: Vec<Expression>, span: Span, n: int)
+    requires forall|i: int| 0 <= i < values@.len() ==> e_up(#[trigger] values@[i], n),
+    ensures #[trigger] e_up(Expression::Collection { collection, values, span }, n),
+{
+    assert forall|m: int| m >= n implies #[trigger] e_below(Expression::Collection { collection, values, span }, m) by {
+        assert forall|i: int| 0 <= i < values.len() implies e_below(#[trigger] values[i], m) by { assert(e_up(values@[i], n)); }
+    }
+}
+pub broadcast proof fn lemma_up_literals(e: Expression, n: int)
+    requires e is Float || e is Int || e is Str || e is Bool || e is Nil,
+    ensures #[trigger] e_up(e, n),
+{ assert forall|m: int| m >= n implies #[trigger] e_below(e, m) by {} }
+pub broadcast proof fn lemma_up_ifbranch(condition: Option<Expression>, body: Vec<Statement>, span: Span, n: int)
+    requires condition is Some ==> e_up(condition->Some_0, n), all_up(body@, n),
+    ensures #[trigger] ib_up(IfBranch { condition, body, span }, n),
+{
+    assert forall|m: int| m >= n implies #[trigger] ib_below(IfBranch { condition, body, span }, m) by {
+        match condition { Some(c) => { assert(e_below(c, m)); } None => {} }
+        assert forall|i: int| 0 <= i < body.len() implies s_below(#[trigger] body[i], m) by { assert(s_up(body@[i], n)); }
+    }
+}
+pub broadcast proof fn lemma_up_casebranch(pattern: Identifier, variable: Option<Ref>, body: Vec<Statement>, span: Span, n: int)
+    requires variable is Some ==> variable->Some_0 < n, all_up(body@, n),
+    ensures #[trigger] cb_up(CaseBranch { pattern, variable, body, span }, n),
+{
+    assert forall|m: int| m >= n implies #[trigger] cb_below(CaseBranch { pattern, variable, body, span }, m) by {
+        assert forall|i: int| 0 <= i < body.len() implies s_below(#[trigger] body[i], m) by { assert(s_up(body@[i], n)); }
+    }
+}
+pub broadcast proof fn lemma_up_statement(s: Statement, n: int)
+    requires match s {
+        Statement::Assignment { target, value, .. } => e_up(target, n) && e_up(value, n),
+        Statement::Blob { var, .. } | Statement::Enum { var, .. } | Statement::ExternalDefinition { var, .. } => var < n,
+        Statement::Definition { var, value, .. } => var < n && e_up(value, n),
+        Statement::Loop { condition, body, .. } => e_up(condition, n) && all_up(body@, n),
+        Statement::Break(_) | Statement::Continue(_) | Statement::Unreachable(_) => true,
+        Statement::Ret { value, .. } => value is Some ==> e_up(value->Some_0, n),
+        Statement::Block { statements, .. } => all_up(statements@, n),
+        Statement::StatementExpression { value, .. } => e_up(value, n),
+    },
+    ensures #[trigger] s_up(s, n),
+{
+    assert forall|m: int| m >= n implies #[trigger] s_below(s, m) by {
+        match s {
+            Statement::Assignment { target, value, .. } => { assert(e_below(target, m)); assert(e_below(value, m)); }
+            Statement::Definition { var, value, .. } => { assert(e_below(value, m)); }
+            Statement::Loop { condition, body, .. } => {
+                assert(e_below(condition, m));
+                assert forall|i: int| 0 <= i < body.len() implies s_below(#[trigger] body[i], m) by { assert(s_up(body@[i], n)); }
+            }
+            Statement::Ret { value, .. } => { match value { Some(v) => { assert(e_below(v, m)); } None => {} } }
+            Statement::Block { statements, .. } => {
+                assert forall|i: int| 0 <= i < statements.len() implies s_below(#[trigger] statements[i], m) by { assert(s_up(statements@[i], n)); }
+            }
+            Statement::StatementExpression { value, .. } => { assert(e_below(value, m)); }
+            _ => {}
+        }
+    }
+}
+pub broadcast proof fn lemma_up_read_inv(e: Expression, n: int)
+    requires #[trigger] e_up(e, n), e is Read,
+    ensures e->Read_var < n,
+{ assert(e_below(e, n)); }
+pub broadcast group group_up {
+    lemma_up_read_inv,
+    lemma_up_read, lemma_up_variant, lemma_up_call, lemma_up_blobaccess, lemma_up_index, lemma_up_binop, lemma_up_uniop,
+    lemma_up_if, lemma_up_case, lemma_up_function, lemma_up_blob, lemma_up_collection, lemma_up_literals,
+    lemma_up_ifbranch, lemma_up_casebranch, lemma_up_statement,
+}
